@@ -2487,7 +2487,15 @@ void mmd_export_footnote_list_html(DString * out, const char * source, scratch_p
 			// Export footnote
 			pad(out, 2, scratch);
 
-			printf("<li id=\"fn:%d\">\n", i + 1);
+			int note_id = i + 1;
+
+			if (scratch->extensions & EXT_RANDOM_FOOT) {
+				// Use the same random anchor as the references to this note
+				srand(scratch->random_seed_base + note_id);
+				note_id = rand() % 32000 + 1;
+			}
+
+			printf("<li id=\"fn:%d\">\n", note_id);
 			scratch->padded = 6;
 
 			note = stack_peek_index(scratch->used_footnotes, i);
